@@ -167,8 +167,10 @@ def Objs.get? (s : Objs) (k : String) : Option Obj := (s.find? (·.1 = k)).map (
 (`lbs.fromMap(rls.Labels)` first, then `lbs.set("name", …)` …). -/
 def objLabels (r : Rel) : List (String × String) := sysLabels r ++ r.labels
 
-/-- `getPanics`: the Secrets driver touches the decoded release before checking the decode
-error (nil dereference on an undecodable record); the ConfigMaps driver returns the error. -/
+/-- `getPanics` = true describes a driver that touches the decoded release before checking the
+decode error (nil dereference on an undecodable record), as `Secrets.Get` did on the pinned tree
+before the repair `fix: Secrets.Get returns the decode error ...`; both object drivers are now
+the `getPanics = false` instance (the driver of the correspondence uses it for both). -/
 def objStep (getPanics : Bool) (s : Objs) : Op → Objs × Out
   | .create k r => if (s.get? k).isSome then (s, .exists) else (s ++ [(k, ⟨objLabels r, some r⟩)], .ok)
   | .get k => match s.get? k with
